@@ -175,7 +175,7 @@ def run (line : String) : String :=
       let H := hs.filter (·.sel.isSome) ++ hs.filter (·.sel.isNone)
       let sorted := cuts.foldr insertSorted []
       let res := rewrite H encUtf8 (splitTokens sorted 0 toks)
-      if res.1.fault then some "PANIC model-fault"
+      if res.1.fault || res.1.faultRemoved then some "PANIC model-fault"
       else some s!"{hexOrDash res.2} {natListStr ((List.range H.length).map res.1.inv)}"
     r.getD "bad-case"
   | _ => "bad-case"
